@@ -213,7 +213,8 @@ pub fn ls_record(seed: u64, n: u64, path: &str) -> Value {
                 }
                 4 => fields.push(format!("{:0>width$}", r.pick(interesting), width = r.range(1, 4))),
                 5 => fields.push(r.below(256).to_string()),
-                6 if r.chance(1, 3) => fields.push((*r.pick(&["", "+1", "-1", " 1", "1 ", "256", "300", "1.5", "a", "٣", "1e1", "0x1", "１", "+0", "0255"])).to_string()),
+                6 if r.chance(1, 3) => fields.push((*r.pick(&["", "+1", "-1", " 1", "1 ", "256", "300", "1.5", "a", "٣", "1e1", "0x1", "１", "+0", "0255", "65536", "65537", "4294967296", "4294967297", "4294967327",
+                    "18446744073709551616", "18446744073709551617", "99999999999999999999999", "00000000000000000000000001", "000000000000000000000000256"])).to_string()),
                 _ => fields.push(r.pick(interesting).to_string()),
             }
         }
